@@ -287,6 +287,25 @@ theorem every_maximal_schedule_after_flush_drains (s s' : S) (h : Reachable s) (
 example : (drain 50 (run (mk 4 3 5) [.write [1] none, .write [2, 3] none])).emitted.map (·.objs) = [[1, 2, 3]] := by
   decide
 
+/-- "After `Close` the run loop can always get to its `done` case": in every reachable state with
+`done` set and the loop not yet stopped, `stop` or one of the loop's own steps is enabled -/
+def C24_close_returns_full : Prop :=
+  ∀ s : S, Reachable s → s.done = true → s.stopped = false →
+    (stop s).isSome = true ∨ (recv s).isSome = true ∨ (fire s).isSome = true ∨ (send s).isSome = true
+
+/-- it holds whenever the loop is not blocked sending (decidable exclusion) -/
+theorem close_returns_partial (s : S) (hd : s.done = true) (hs : s.stopped = false)
+    (hsend : s.sending = none) : (stop s).isSome = true := by
+  simp [stop, hd, hs, hsend]
+
+/-- and fails when it is: the loop waits for the consumer, `Close` waits for the loop -/
+theorem close_returns_witness : ¬ C24_close_returns_full := by
+  intro h
+  have := h (run (mk 4 1 0) [.write [1] none, .recv, .send, .write [2] none, .recv, .close])
+    ⟨4, 1, 0, 0, _, rfl⟩ (by decide) (by decide)
+  revert this
+  decide
+
 /-- What the model shows about `Close` (outside the property, recorded because the C23
 harness observes it on the real service): when the run loop is blocked sending a batch to
 the full output slot, `close(q.done)` cannot stop it — `stop` is not enabled, and nothing the
